@@ -23,6 +23,7 @@ package ring
 //@   ensures from < to ==> result == to - from
 //@   ensures from >= to ==> result == 4294967296 - from + to
 //@   ensures 1 <= result && result <= 4294967296
+//@   pure
 //@
 //@ pred sortedNS(s []uint32) = forall i, j int :: 0 <= i && i < j && j < len(s) ==> s[i] <= s[j]
 //@ opaque pred pairCovers(tr []uint32, j int, k uint32) = 0 <= j && 2*j+1 < len(tr) && tr[2*j] <= k && k <= tr[2*j+1]
